@@ -188,6 +188,25 @@ def check_learn_state_premise(rep: Rep, repo: Repo, pre: str = "LEARN:") -> None
             n += 1
             failed = failed or not o.ok
             rep.chk.ob(pre + o.rule, o.function, o.construct, o.ok, o.detail, o.file, o.line)
+    if n == 0 and tmp.violations():
+        # C17's rule set stopped at a violation of its own (which iteration wins); the state facts the forest properties
+        # need are read directly: the snapshot(s) kept are deep copies of the object, and one of them is installed
+        from .ir import Walker
+        w = model_walk(repo, "SupervisedOPF", "learn")
+        fn = w.entry
+        snaps = [e for e in w.events if e.kind == "bind" and e.loops and e.value[0] == "alloc"
+                 and e.value[1] in ("copy.deepcopy", "copy.copy") and e.value[2] == (("self",),)]
+        rep.fn(pre + "L3-snapshot", fn, "the classifier kept by learn is a deep copy taken right after a fit",
+               bool(snaps) and all(e.value[1] == "copy.deepcopy" for e in snaps),
+               "a shallow copy shares the forest whose features the exchange step rewrites")
+        names = {e.name for e in snaps}
+        inst = [e for e in w.events if e.kind == "call" and e.name == "update"
+                and e.target == ("attr", ("attr", ("self",), "__dict__"), "update") and len(e.args) == 1
+                and e.args[0][0] == "attr" and e.args[0][2] == "__dict__"
+                and ((e.args[0][1][0] == "phi" and e.args[0][1][2] in names) or e.args[0][1] in [x.value for x in snaps])]
+        rep.fn(pre + "L3-install", fn, "the kept snapshot's whole state is installed into the object", len(inst) >= 1,
+               "no `self.__dict__.update(<snapshot>.__dict__)`")
+        return
     if n < 3 and not failed:
         raise AnalysisError(f"learn-state premise: only {n} obligations found")
 
